@@ -705,6 +705,15 @@ pub fn run(args: &Args) {
         emit(&mut run, format!("rtcp_marshal NACK,1,2,{}", lost.join(";")), true);
     }
     run.count_n("nack_window_subsets", (1u64 << w) - 1);
+    // NACK FCI as received: PIDs next to the wrap with arbitrary bitmasks (expansion must wrap 65535 → 0)
+    for _ in 0..300 * scale {
+        let n = rng.range(1, 4) as usize;
+        let mut v = vec![0x81u8, 205, 0, (2 + n) as u8, 0, 0, 0, 1, 0, 0, 0, 2];
+        for _ in 0..n { let pid = pk!(rng, [65_535u16, 65_534, 65_520, 65_519, 0, 32_767, rng.next() as u16]);
+            let blp = pk!(rng, [0u16, 1, 0x8000, 0xFFFF, 0x8001, rng.next() as u16]);
+            v.extend(pid.to_be_bytes()); v.extend(blp.to_be_bytes()); }
+        emit(&mut run, format!("rtcp_parse {}", hex(&v)), true); run.count("rtcp_nack_fci_near_wrap");
+    }
     // unknown packet types, XR, feedback formats, SDES without terminator, text that is not UTF-8
     for _ in 0..600 * scale {
         let pt = pk!(rng, [192u8, 199, 200, 201, 202, 203, 204, 205, 206, 207, 208, 0, 255]);
